@@ -51,7 +51,10 @@ def cases_for(res, rng):
     for i in range(120 if quick else 1200):
         K = rng.choice(tiny)
         if i % 3 == 0:
-            t = (rng.choice('AE'), (rng.choice(['and', 'or']),) + tuple(F.rand_ltl_path(rng, 1, max_temporal=1) for _ in range(rng.choice([4, 5]))))
+            k = rng.choice([4, 5])
+            ops = [F.rand_ltl_path(rng, 1, max_temporal=1) for _ in range(3)] + [F.rand_pl(rng, 1) for _ in range(k - 3)]
+            rng.shuffle(ops)
+            t = (rng.choice('AE'), (rng.choice(['and', 'or']),) + tuple(ops))
         else:
             t = F.rand_ctls_state(rng, 6, max_temporal=3, qdepth=4)
         cases.append((K, t, 'obj'))
